@@ -37,6 +37,7 @@ import (
 	"sort"
 	"strings"
 	"sync"
+	"time"
 
 	"github.com/nuetzliches/hookaido/internal/config"
 	"github.com/nuetzliches/hookaido/internal/verifkit/runner"
@@ -303,7 +304,7 @@ func mfServeSeq(c mfCfg, idx []int, ip interp, slot int) (bool, expectation, obs
 }
 
 // runMethodFamily enumerates the family and reports its violations; it returns false on an infrastructure error.
-func runMethodFamily(r *runner.Run, ip interp) bool {
+func runMethodFamily(r *runner.Run, ip interp, deadline time.Time) bool {
 	cfgs := mfConfigs(r.Thorough())
 	workers := runtime.NumCPU()
 	if workers > 16 {
@@ -314,6 +315,7 @@ func runMethodFamily(r *runner.Run, ip interp) bool {
 		classes                                  map[string]struct{}
 		finds                                    map[string]mfFinding
 		infra                                    []string
+		cut                                      bool
 	}
 	results := make([]*result, workers)
 	var wg sync.WaitGroup
@@ -324,6 +326,10 @@ func runMethodFamily(r *runner.Run, ip interp) bool {
 		go func(w int) {
 			defer wg.Done()
 			for ci := w; ci < len(cfgs); ci += workers {
+				if time.Now().After(deadline) {
+					res.cut = true
+					return
+				}
 				c := cfgs[ci]
 				dsl := mfDSL(c, bootSeq.Add(1))
 				parsed, err := config.Parse([]byte(dsl))
@@ -397,13 +403,14 @@ func runMethodFamily(r *runner.Run, ip interp) bool {
 	}
 	wg.Wait()
 
-	good := true
+	good, cut := true, false
 	finds := map[string]mfFinding{}
 	for _, res := range results {
 		for _, m := range res.infra {
 			r.Infra("%s", m)
 			good = false
 		}
+		cut = cut || res.cut
 		r.Add("evaluations", res.evals)
 		r.Add("method_family_evaluations", res.evals)
 		r.Add("method_family_consecutive_pairs", res.pairs)
@@ -421,6 +428,9 @@ func runMethodFamily(r *runner.Run, ip interp) bool {
 				finds[k] = f
 			}
 		}
+	}
+	if cut {
+		r.NotExhaustive("wall budget reached inside the method list family")
 	}
 	kinds := make([]string, 0, len(finds))
 	for k := range finds {
